@@ -17,3 +17,5 @@ def check(repo, rep, tier):
     rb.rule_manual_advance(em, rep, 'C02.H1')
     rb.rule_no_exhaust_then_yield(em, rep, 'C02.H1x')
     rx.rule_no_cached_binding_state(em, rep, 'C02.B6')
+    from .. import rules_state as rs
+    rs.rule_atoms_unify_by_name(em, rep, 'C02.A2')
